@@ -6,6 +6,7 @@ package main
 
 import (
 	"context"
+	"errors"
 	"fmt"
 	"math"
 	"os"
@@ -377,6 +378,8 @@ func expoVec(sum int64, count, zero uint64, scale int32, pos, neg metricdata.Exp
 	return append(vec, dense...)
 }
 
+var errCallback = errors.New("verif: callback failed")
+
 func kvsDesc(kvs []kv) string { return canon(kvs) }
 
 func allDelta(sdk.InstrumentKind) metricdata.Temporality { return metricdata.DeltaTemporality }
@@ -625,6 +628,7 @@ func (rn *runner) history(seedDesc string, nOps int) {
 
 	// ---- run ----
 	var script []attempt
+	failing := map[int]bool{} // callbacks that return an error in the current cycle (after observing)
 	type regState struct {
 		reg   metric.Registration
 		insts []int
@@ -646,13 +650,19 @@ func (rn *runner) history(seedDesc string, nOps int) {
 					o.ObserveInt64(in.io, a.v, opt)
 				}
 			}
+			if failing[id] {
+				return errCallback
+			}
 			return nil
 		}
 	}
 
 	var ops []op
 	var terms []string
-	type collectObs struct{ d, c []streamObs }
+	type collectObs struct {
+		d, c       []streamObs
+		errD, errC bool
+	}
 	var collected []collectObs
 	var descOps []string
 	var syncIdx []int
@@ -722,9 +732,14 @@ func (rn *runner) history(seedDesc string, nOps int) {
 		case last || c >= 70:
 			// a cycle: what every callback ever created would observe now
 			script = nil
-			var at []string
+			failing = map[int]bool{}
+			var at, failT []string
 			if len(asyncIdx) > 0 {
 				for id := 0; id < nextCb; id++ {
+					if r.Chance(1, 6) { // this callback reports an error in this cycle
+						failing[id] = true
+						failT = append(failT, vgen.N(uint64(id)))
+					}
 					n := r.Intn(5)
 					for j := 0; j < n; j++ {
 						i := vgen.Pick(r, asyncIdx) // may be an instrument the callback was not registered with
@@ -747,15 +762,21 @@ func (rn *runner) history(seedDesc string, nOps int) {
 				errC = cumR.Collect(ctx, &rmC)
 				errD = deltaR.Collect(ctx, &rmD)
 			}
-			if errD != nil || errC != nil {
-				w.Violation(fmt.Sprintf("Collect failed: %v / %v", errD, errC), seedDesc)
-				return
+			for _, e := range []error{errD, errC} {
+				if e != nil && !errors.Is(e, errCallback) {
+					w.Violation(fmt.Sprintf("Collect failed with an error other than the callback's: %v", e), seedDesc)
+					return
+				}
 			}
 			d := map[string]any{"history": seedDesc, "collection": nCollect}
-			collected = append(collected, collectObs{d: rn.extract(&rmD, metricdata.DeltaTemporality, d), c: rn.extract(&rmC, metricdata.CumulativeTemporality, d)})
+			collected = append(collected, collectObs{d: rn.extract(&rmD, metricdata.DeltaTemporality, d), c: rn.extract(&rmC, metricdata.CumulativeTemporality, d),
+				errD: errD != nil, errC: errC != nil})
+			if errD != nil || errC != nil {
+				w.Tally("collect:callback-error")
+			}
 			nCollect++
-			terms = append(terms, vgen.App("Co", vgen.List(at)))
-			descOps = append(descOps, fmt.Sprintf("collect (%d attempts)", len(script)))
+			terms = append(terms, vgen.App("Co", vgen.List(at), vgen.List(failT)))
+			descOps = append(descOps, fmt.Sprintf("collect (%d attempts, failing callbacks %v) -> errors %v/%v", len(script), failT, errD != nil, errC != nil))
 			w.Tally(fmt.Sprintf("collect:attempts=%d", min(len(script), 12)/4*4))
 		default:
 			continue
@@ -831,13 +852,218 @@ func (rn *runner) history(seedDesc string, nOps int) {
 		kindD = append(kindD, kindNames[in.kind]+"/"+fl)
 		w.Tally("kind:" + kindNames[in.kind] + "/" + fl)
 	}
-	term := vgen.App("CHist", vgen.List(kindT), vgen.List(terms), vgen.List(perInst))
+	var errT []string
+	for _, co := range collected {
+		errT = append(errT, vgen.Pair(vgen.Bool(co.errD), vgen.Bool(co.errC)))
+	}
+	term := vgen.App("CHist", vgen.List(kindT), vgen.List(terms), vgen.List(perInst), vgen.List(errT))
 	desc := map[string]any{"history": seedDesc, "instruments": kindD, "attribute_sets": canons, "ops": descOps, "delta_reader_first": deltaFirst}
 	w.Tally(fmt.Sprintf("history:ops=%d", len(terms)/20*20))
 	w.Tally(fmt.Sprintf("history:collections=%d", min(nCollect, 24)/4*4))
 	w.Tally(fmt.Sprintf("history:sets=%d", len(sets)))
 	w.Add(term, desc, "history", nPoints > 0 && nCollect >= 2)
 	_ = ops
+}
+
+// ---- exponential histograms that rescale ----
+
+type ePoint struct {
+	key         uint64
+	scale       int64
+	sum         int64
+	count, zero uint64
+	pos, neg    [][2]int64
+}
+
+func bucketsOf(b metricdata.ExponentialBucket) [][2]int64 {
+	var out [][2]int64
+	for j, c := range b.Counts {
+		if c != 0 {
+			out = append(out, [2]int64{int64(b.Offset) + int64(j), int64(c)})
+		}
+	}
+	return out
+}
+
+func (p ePoint) coq() string {
+	bs := func(b [][2]int64) string {
+		var xs []string
+		for _, e := range b {
+			xs = append(xs, vgen.App("B", zig(e[0]), vgen.N(uint64(e[1]))))
+		}
+		return vgen.List(xs)
+	}
+	return vgen.App("EP", vgen.N(p.key), zig(p.scale), zig(p.sum), vgen.N(p.count), vgen.N(p.zero), bs(p.pos), bs(p.neg))
+}
+
+// expoHistory: one Histogram instrument with a base-2 exponential view of small MaxSize and low
+// MaxScale, fed values whose dynamic range grows across cycles (both signs, zeros), read by the delta
+// and the cumulative reader; judged by the scale-independent clauses of C08/Spec.v (expo_ok).
+// Values are m * 2^e with m in {1.125 .. 1.875}: never on (or within 3 % of) a bucket boundary at
+// scale <= 3, so down-shifting a finer index gives exactly the coarser index.
+func (rn *runner) expoHistory(desc string) {
+	r, w := rn.r, rn.w
+	maxSize := int32(r.Range(2, 6))
+	maxScale := int32(r.Range(0, 3))
+	float := r.Bool()
+	sets, canons := [][]kv{}, []string{}
+	for _, s := range [][]kv{{}, {{"a", int64(1)}}, {{"b", "x"}}}[:r.Range(1, 3)] {
+		sets = append(sets, s)
+		canons = append(canons, canon(s))
+	}
+	sort.Strings(canons)
+	kt := &keyTable{idx: map[string]uint64{}}
+	for i, c := range canons {
+		kt.idx[c] = uint64(i)
+	}
+	deltaR := sdk.NewManualReader(sdk.WithTemporalitySelector(allDelta))
+	cumR := sdk.NewManualReader(sdk.WithTemporalitySelector(allCum))
+	mp := sdk.NewMeterProvider(sdk.WithReader(deltaR), sdk.WithReader(cumR),
+		sdk.WithView(sdk.NewView(sdk.Instrument{Name: "e0"},
+			sdk.Stream{Aggregation: sdk.AggregationBase2ExponentialHistogram{MaxSize: maxSize, MaxScale: maxScale}})))
+	ctx := context.Background()
+	defer mp.Shutdown(ctx)
+	meter := mp.Meter("verif/c08/expo")
+	var ih metric.Int64Histogram
+	var fh metric.Float64Histogram
+	var err error
+	if float {
+		fh, err = meter.Float64Histogram("e0")
+	} else {
+		ih, err = meter.Int64Histogram("e0")
+	}
+	if err != nil {
+		w.Violation("instrument creation failed: "+err.Error(), desc)
+		return
+	}
+	bad := func(what string) { w.Violation(what, desc) }
+	extract := func(rm *metricdata.ResourceMetrics, want metricdata.Temporality) []ePoint {
+		var out []ePoint
+		add := func(set attribute.Set, scale int32, sum int64, count, zero uint64, pos, neg metricdata.ExponentialBucket) {
+			out = append(out, ePoint{key: kt.of(canonSet(set)), scale: int64(scale), sum: sum, count: count, zero: zero, pos: bucketsOf(pos), neg: bucketsOf(neg)})
+		}
+		for _, sm := range rm.ScopeMetrics {
+			for _, m := range sm.Metrics {
+				switch d := m.Data.(type) {
+				case metricdata.ExponentialHistogram[int64]:
+					if d.Temporality != want {
+						bad("wrong temporality reported")
+					}
+					for _, p := range d.DataPoints {
+						add(p.Attributes, p.Scale, p.Sum, p.Count, p.ZeroCount, p.PositiveBucket, p.NegativeBucket)
+					}
+				case metricdata.ExponentialHistogram[float64]:
+					if d.Temporality != want {
+						bad("wrong temporality reported")
+					}
+					for _, p := range d.DataPoints {
+						sv, ok := scaled(p.Sum)
+						if !ok {
+							bad(fmt.Sprintf("inexact float sum %v", p.Sum))
+						}
+						add(p.Attributes, p.Scale, sv, p.Count, p.ZeroCount, p.PositiveBucket, p.NegativeBucket)
+					}
+				default:
+					bad(fmt.Sprintf("unexpected aggregation %T", m.Data))
+				}
+			}
+		}
+		sort.Slice(out, func(a, b int) bool { return out[a].key < out[b].key })
+		return out
+	}
+	mant := []int64{9, 10, 11, 12, 13, 14, 15} // eighths: 1.125 .. 1.875
+	loE, hiE := 3, 24
+	if float {
+		loE, hiE = -7, 20
+	}
+	e0 := r.Range(loE, hiE-6)
+	span := r.Range(0, 2) // the exponent window [e0, e0+span] widens as the cycles go by
+	nCycles := r.Range(3, 10)
+	var measT, obsT, descC []string
+	for c := 0; c < nCycles; c++ {
+		counts := map[uint64]uint64{}
+		n := r.Range(0, 6)
+		var vals []string
+		for j := 0; j < n; j++ {
+			s := sets[r.Intn(len(sets))]
+			e := e0 + r.Intn(span+1)
+			if r.Chance(1, 10) { // an outlier far above / below everything so far
+				e = vgen.Pick(r, []int{loE, hiE})
+			}
+			// value = m/8 * 2^e in model units (scaled by 2^10 for float instruments)
+			var v int64
+			m := vgen.Pick(r, mant)
+			if float {
+				v = m << uint(e+7) // m/8 * 2^e * 2^10
+			} else {
+				v = m << uint(e-3)
+			}
+			if r.Chance(1, 8) {
+				v = 0
+			}
+			if r.Chance(1, 4) {
+				v = -v
+			}
+			opt := metric.WithAttributes(toAttr(s)...)
+			if float {
+				fh.Record(ctx, float64(v)/scale, opt)
+			} else {
+				ih.Record(ctx, v, opt)
+			}
+			counts[kt.of(canon(s))]++
+			vals = append(vals, fmt.Sprint(v))
+		}
+		if r.Chance(2, 3) {
+			span += r.Range(0, 3)
+			if e0+span > hiE {
+				span = hiE - e0
+			}
+		}
+		if r.Chance(1, 3) && e0 > loE {
+			e0--
+			span++
+		}
+		var rmD, rmC metricdata.ResourceMetrics
+		var errD, errC error
+		if r.Bool() {
+			errD, errC = deltaR.Collect(ctx, &rmD), cumR.Collect(ctx, &rmC)
+		} else {
+			errC = cumR.Collect(ctx, &rmC)
+			errD = deltaR.Collect(ctx, &rmD)
+		}
+		if errD != nil || errC != nil {
+			w.Violation(fmt.Sprintf("Collect failed: %v / %v", errD, errC), desc)
+			return
+		}
+		dp, cp := extract(&rmD, metricdata.DeltaTemporality), extract(&rmC, metricdata.CumulativeTemporality)
+		var ks []uint64
+		for k := range counts {
+			ks = append(ks, k)
+		}
+		sort.Slice(ks, func(a, b int) bool { return ks[a] < ks[b] })
+		var mc, dT, cT []string
+		for _, k := range ks {
+			mc = append(mc, vgen.App("MC", vgen.N(k), vgen.N(counts[k])))
+		}
+		for _, p := range dp {
+			dT = append(dT, p.coq())
+		}
+		minScale := int64(maxScale)
+		for _, p := range cp {
+			cT = append(cT, p.coq())
+			if p.scale < minScale {
+				minScale = p.scale
+			}
+		}
+		measT = append(measT, vgen.List(mc))
+		obsT = append(obsT, vgen.Pair(vgen.List(dT), vgen.List(cT)))
+		descC = append(descC, fmt.Sprintf("record %v; collect -> lowest cumulative scale %d", vals, minScale))
+		if c == nCycles-1 {
+			w.Tally(fmt.Sprintf("expo:rescaled-by=%d", int64(maxScale)-minScale))
+		}
+	}
+	w.Add(vgen.App("CExpo", vgen.List(measT), vgen.List(obsT)),
+		map[string]any{"history": desc, "max_size": maxSize, "max_scale": maxScale, "float": float, "cycles": descC}, "expo-rescaling", nCycles >= 2)
 }
 
 func main() {
@@ -863,6 +1089,18 @@ func main() {
 				}
 			}()
 			rn.history(desc, nOps)
+		}()
+	}
+	nExpo := o.Count(120, 2000)
+	for i := 0; i < nExpo; i++ {
+		desc := fmt.Sprintf("seed=%d expo=%d", o.Seed, i)
+		func() {
+			defer func() {
+				if e := recover(); e != nil {
+					w.Violation(fmt.Sprintf("panic: %v", e), desc)
+				}
+			}()
+			rn.expoHistory(desc)
 		}()
 	}
 	if err := w.Flush(); err != nil {
